@@ -259,9 +259,9 @@ func (g *docGen) render(n *cnode) string {
 		case "style":
 			return "<style>." + strings.ReplaceAll(w, " ", " .") + " {color:red}</style>"
 		case "noscript":
-			return "<noscript>" + w + "</noscript>"
+			return "<noscript" + g.noiseAttrs() + ">" + w + "</noscript>"
 		case "svg":
-			return "<svg><text>" + w + "</text></svg>"
+			return "<svg" + g.noiseAttrs() + ` viewBox="0 0 10 10"><path d="M0 0L9 9"` + g.noiseAttrs() + "></path><text" + g.noiseAttrs() + ">" + w + "</text></svg>"
 		default:
 			return `<iframe src="https://frames.example.org/f` + fmt.Sprint(g.marker()) + `">` + w + "</iframe>"
 		}
@@ -269,17 +269,17 @@ func (g *docGen) render(n *cnode) string {
 		w := g.rawWords(n)
 		switch g.pick("form", "button", "select", "textarea", "object", "applet", "label-input") {
 		case "form":
-			return "<form><p>" + w + "</p><input type=\"text\" value=\"" + g.words(1) + "\"></form>"
+			return "<form" + g.noiseAttrs() + "><p>" + w + "</p><input type=\"text\" value=\"" + g.words(1) + "\"" + g.noiseAttrs() + "></form>"
 		case "button":
-			return "<button>" + w + "</button>"
+			return "<button" + g.noiseAttrs() + ">" + w + "</button>"
 		case "select":
-			return "<select><option>" + w + "</option></select>"
+			return "<select" + g.noiseAttrs() + "><option" + g.noiseAttrs() + ">" + w + "</option></select>"
 		case "textarea":
-			return "<textarea>" + w + "</textarea>"
+			return "<textarea" + g.noiseAttrs() + ">" + w + "</textarea>"
 		case "object":
-			return `<object data="/o/x.swf">` + w + "</object>"
+			return `<object data="/o/x.swf"` + g.noiseAttrs() + ">" + w + "</object>"
 		case "applet":
-			return "<applet>" + w + "</applet>"
+			return "<applet" + g.noiseAttrs() + ">" + w + "</applet>"
 		default:
 			return `<input type="submit" value="` + g.words(1) + `">`
 		}
